@@ -7,6 +7,7 @@ import CbiVerif.Drv.DbPath
 import CbiVerif.Drv.Exclude
 import CbiVerif.Drv.C08
 import CbiVerif.Drv.Argv
+import CbiVerif.Drv.ArgvFull
 import CbiVerif.Drv.C01
 import CbiVerif.Drv.CLex
 import CbiVerif.Drv.Compilers
@@ -29,6 +30,7 @@ def handlerTable : List (String × (Json → Json)) :=
   CbiVerif.Drv.Exclude.handlers ++
   CbiVerif.Drv.C08.handlers ++
   CbiVerif.Drv.Argv.handlers ++
+  CbiVerif.Drv.ArgvFull.handlers ++
   CbiVerif.Drv.C01.handlers ++
   CbiVerif.Drv.CLex.handlers ++
   CbiVerif.Drv.Compilers.handlers ++
